@@ -13,7 +13,8 @@ TYPE_NAMES = [
 
 INT_KINDS = "irgud"
 STR_KINDS = "SsltbwC"  # C is not a kind; placeholder so that 'c' is handled separately
-ALL_KINDS = ["i", "r", "g", "u", "d", "c", "S", "s", "l", "t", "b", "w"]
+ALL_KINDS = ["i", "r", "g", "u", "d", "c", "S", "s", "l", "t", "b", "w", "e", "p", "q"]
+PREFIX_TEXTS = ["abcdef", "x::y::z", "1000", "aaaa", "\u00fcber"]
 
 
 def enc(s):
@@ -59,7 +60,12 @@ def gen_args(rng, kind, n):
         return [s + i for i in range(n)]
     if kind == "u":
         return [rng.choice([0, 1, 2, 9, 10, 11, 99, 100, 255, rng.randrange(256)]) for _ in range(n)]
-    if kind in "ird":
+    if kind in "pq":
+        # prefixes of one text (including the empty one, repeated lengths)
+        t = rng.choice(PREFIX_TEXTS)
+        cuts = [i for i in range(len(t) + 1) if len(t[:i].encode()) == len(t[:i].encode("utf-8"))]
+        return [t[:rng.choice(cuts)] for _ in range(n)]
+    if kind in "irde":
         pool = [0, 1, -1, 2, 10, 9, 100, -100, 2**63 - 1, -(2**63), 7, 42]
         return [rng.choice(pool) if rng.random() < 0.7 else rng.randrange(-1000, 1000) for _ in range(n)]
     if kind == "c":
@@ -70,6 +76,8 @@ def gen_args(rng, kind, n):
 def label_of(kind, v):
     if kind == "d":
         return "Dbg(%d)" % v
+    if kind == "e":
+        return ""
     return str(v)
 
 
